@@ -127,6 +127,22 @@ def process_cases(tier, rng, escapes=True):
         f = prog_fields(segs, ops, sts)
         cases.append(Case("list", f, {"gen": "p", "ops": "".join(ops), "sts": tuple(sts), "segs": segs}))
     cases += bg_cases(tier, progs)
+    cases += sete_cases(tier, progs)
+    return cases
+
+
+def sete_cases(tier, progs):
+    """`set -e` switched on earlier on the line: inside a line the operators go on deciding on the status of the pipeline just run
+    (`set -e; false && echo A || echo B` prints B; `set -e; false; echo x` prints x -- exit-on-error acts between the lines of a script)"""
+    cases = []
+    ns = 40 if tier == "quick" else 400
+    for j, (ops, sts) in enumerate(progs[3:3 + ns]):
+        segs = ["set -e "]
+        for i, st in enumerate(sts):
+            segs.append(" stage %d %d%s" % (i, st, " " if i < len(sts) - 1 else ""))
+        ops2, sts2 = ["s"] + list(ops), [0] + list(sts)
+        f = prog_fields(segs, ops2, sts2)
+        cases.append(Case("list", f, {"gen": "p", "ops": "".join(ops2), "sts": tuple(sts2), "segs": segs, "bg": True, "sete": True}))
     return cases
 
 
@@ -184,7 +200,9 @@ def process(tier, rng, cicada):
     for i, c in enumerate(pc):
         c.id = "p%d" % i
     out = [("-c", pc, run_process(cicada, pc, "c"))]
-    sc = process_cases(tier, rng.fork("script"), escapes=False)[: (60 if tier == "quick" else 1000)]
+    allc = process_cases(tier, rng.fork("script"), escapes=False)
+    nsc = 60 if tier == "quick" else 1000
+    sc = allc[:nsc] + [c for c in allc[nsc:] if c.meta.get("sete")][: (20 if tier == "quick" else 200)]
     for i, c in enumerate(sc):
         c.id = "s%d" % i
     out.append(("script", sc, run_process(cicada, sc, "script")))
